@@ -9,3 +9,5 @@ import Gomjml.Props.C04
 #print axioms Gomjml.Props.C04.C04_inline_model_is_core
 #print axioms Gomjml.Props.C04.C04_inline_content_roundtrip
 #print axioms Gomjml.Props.C04.C04_inline_value_counterexample
+#print axioms Gomjml.Props.C04.C04_text_keeps_ink
+#print axioms Gomjml.Props.C04.C04_text_whitespace
